@@ -76,8 +76,22 @@ var tree = []entry{
 	{name: "empty", dir: true},
 	{name: "f.txt", content: "C17 file f: 0123456789\n"},
 	{name: "z.bin", content: strings.Repeat("Z", 5000)},
-	{name: "ln", link: "f.txt"},
-	{name: "lnd", link: "d"},
+	// symbolic links of every kind (host mounts only)
+	{name: "ln", link: "f.txt"},                // to a file
+	{name: "lnd", link: "d"},                   // to a directory
+	{name: "chain", link: "ln"},                // to a link
+	{name: "d/lnup", link: "../f.txt"},         // upwards, inside the mount
+	{name: "dang", link: "d/missing.txt"},      // dangling: missing name in an existing directory
+	{name: "dang2", link: "nodir/missing.txt"}, // dangling: missing directory
+	{name: "dangchain", link: "dang"},          // link to a dangling link
+	{name: "up", link: "../out/o.txt"},         // leaves the mount: existing file next to it
+	{name: "updang", link: "../out/missing"},   // leaves the mount: missing name next to it
+}
+
+// outTree lives next to the read-only tree (host directory "out"); it is reachable from the
+// mount only through the links "up"/"updang" and is part of the snapshot.
+var outTree = []entry{
+	{name: "o.txt", content: "outside o\n"},
 }
 
 const knownFile, knownContent = "f.txt", "C17 file f: 0123456789\n"
@@ -321,24 +335,41 @@ func diffSnap(a, b string) (stable, detail string) {
 
 // ---- static knowledge of the tree for the non-triviality rule ----
 
+// resolveLinks follows the tree's symbolic links in rel; "" when the path leaves the mount.
 func resolveLinks(rel string) string {
-	// the only symlinks are ln -> f.txt and lnd -> d at the top level
-	switch {
-	case rel == "ln":
-		return "f.txt"
-	case rel == "lnd":
-		return "d"
-	case strings.HasPrefix(rel, "lnd/"):
-		return "d/" + rel[4:]
+	for depth := 0; depth < 8; depth++ {
+		parts := strings.Split(rel, "/")
+		changed := false
+		for k := range parts {
+			prefix := strings.Join(parts[:k+1], "/")
+			for _, e := range tree {
+				if e.link != "" && e.name == prefix {
+					t := path.Clean(path.Join(path.Dir(prefix), e.link))
+					if t == ".." || strings.HasPrefix(t, "../") {
+						return ""
+					}
+					rel = path.Clean(path.Join(append([]string{t}, parts[k+1:]...)...))
+					changed = true
+				}
+			}
+			if changed {
+				break
+			}
+		}
+		if !changed {
+			return rel
+		}
 	}
-	return rel
+	return ""
 }
 
 // lookupTree reports whether rel (cleaned, relative to the mount root) exists and whether it
 // is a directory.
 func lookupTree(rel string, withLinks bool) (exists, isDir bool) {
 	if withLinks {
-		rel = resolveLinks(rel)
+		if rel = resolveLinks(rel); rel == "" {
+			return false, false
+		}
 	}
 	if rel == "." || rel == "" {
 		return true, true
@@ -498,6 +529,7 @@ type slot struct {
 // that mount kind in this process; cases run one after the other.
 type host struct {
 	roDir, rwDir string
+	outDir       string // next to roDir, reachable through links only; "" for the MapFS mount
 	otherDir     string
 	otherMap     fstest.MapFS
 	mapfs        fstest.MapFS
@@ -525,8 +557,14 @@ func hostFor(mount string) (*host, error) {
 	if mount == "mapfs" {
 		h.mapfs = buildMapFS()
 		h.roDir = ""
-	} else if err := buildTree(h.roDir, tree); err != nil {
-		return nil, err
+	} else {
+		h.outDir = filepath.Join(base, "out")
+		if err := buildTree(h.roDir, tree); err != nil {
+			return nil, err
+		}
+		if err := buildTree(h.outDir, outTree); err != nil {
+			return nil, err
+		}
 	}
 	hosts[mount] = h
 	return h, nil
@@ -687,7 +725,19 @@ func (w *world) takeSnap() (string, map[string]int64) {
 	if w.mount == "mapfs" {
 		return snapshotMap(w.mapfs), nil
 	}
-	return snapshotDir(w.roDir)
+	// the whole tree is walked (entries that appear anywhere are seen), plus the directory that
+	// links of the tree point to
+	sn, at := snapshotDir(w.roDir)
+	so, ao := snapshotDir(w.outDir)
+	for _, l := range strings.Split(so, "\n") {
+		if l != "" {
+			sn += "../out/" + l + "\n"
+		}
+	}
+	for k, v := range ao {
+		at["../out/"+k] = v
+	}
+	return sn, at
 }
 
 func (w *world) resnap() {
@@ -704,8 +754,13 @@ func (w *world) restore() error {
 		for k, v := range buildMapFS() {
 			w.mapfs[k] = v
 		}
-	} else if err := buildTree(w.roDir, tree); err != nil {
-		return err
+	} else {
+		if err := buildTree(w.roDir, tree); err != nil {
+			return err
+		}
+		if err := buildTree(w.outDir, outTree); err != nil {
+			return err
+		}
 	}
 	if err := buildTree(w.rwDir, rwTree); err != nil {
 		return err
@@ -1044,7 +1099,8 @@ func runCase(w *world, steps []step, every bool) result {
 
 // ---- exhaustive cross product of path_open ----
 
-var crossPaths = []string{"f.txt", "d/g.txt", "d", "empty", ".", "ln", "lnd/g.txt", "new", "d/new", "empty/new", "f.txt/", "d/sub/../g.txt"}
+var crossPaths = []string{"f.txt", "d/g.txt", "d", "empty", ".", "ln", "lnd/g.txt", "new", "d/new", "empty/new", "f.txt/", "d/sub/../g.txt",
+	"lnd", "chain", "d/lnup", "dang", "dang2", "dangchain", "up", "updang", "lnd/new"}
 
 var crossRights = []uint64{0, rightRead, rightWrite, rightRead | rightWrite, ^uint64(0)}
 
@@ -1097,7 +1153,7 @@ func crossCase(i int) (caseT, bool) {
 	return caseT{Mount: mountKinds[n], Engine: "interpreter", Config: crossRecipes[(i/512)%len(crossRecipes)], Steps: append([]step{open}, battery()...)}, true
 }
 
-const crossTotal = 16 * 32 * 5 * 2 * 12 * 3
+var crossTotal = 16 * 32 * len(crossRights) * 2 * len(crossPaths) * len(mountKinds)
 
 func TestOpenCrossProduct(t *testing.T) {
 	if evid.ReplayPath() != "" {
@@ -1192,7 +1248,8 @@ func TestOpenCrossProduct(t *testing.T) {
 
 // ---- rapid sequences ----
 
-var seqPaths = []string{"f.txt", "d/g.txt", "d", "empty", ".", "ln", "lnd", "lnd/g.txt", "new", "d/new", "empty/new", "d/sub", "d/sub/h.txt",
+var seqPaths = []string{"chain", "d/lnup", "dang", "dang", "dang2", "dangchain", "up", "updang", "lnd/new", "lnd/sub", "dang/x", "chain/", "d/missing.txt",
+	"f.txt", "d/g.txt", "d", "empty", ".", "ln", "lnd", "lnd/g.txt", "new", "d/new", "empty/new", "d/sub", "d/sub/h.txt",
 	"z.bin", "f.txt/", "d/", "d/sub/../g.txt", "./f.txt", "..", "../ro/f.txt", "../rw/w.txt", "/f.txt", "", "d/../../ro/new", "nodir/x", "w.txt", "wd", "moved"}
 
 var sentinelTimes = []uint64{0, 1, 1111111111000000000, 1222222222000000000, 1333333333000000000, 1 << 62, ^uint64(0)}
